@@ -85,10 +85,15 @@ def generate():
         raise gt.GenError("encode.rs: <max dictionary size> = (1 << lgwin) - K not found")
     maxd = re.escape(m.group(1))
     out.append("Definition MULTI_DICT_GAP : N := %d." % int(m.group(2)))
-    m = re.search(r"if\s+\w+\s*==\s*0\s*\|\|\s*self\.params\.quality\s*==\s*0\s*\|\|\s*self\.params\.quality\s*==\s*1\s*\|\|\s*\w+\s*<=\s*(\d+)\s*\{", sd)
+    # `if dict_size == 0 || quality == 0 || quality == 1 [|| size <= K] {`: dictionaries of at most K bytes are ignored (K = 0: only the empty one)
+    m = re.search(r"if\s+\w+\s*==\s*0\s*\|\|\s*self\.params\.quality\s*==\s*0\s*\|\|\s*self\.params\.quality\s*==\s*1\s*(?:\|\|\s*\w+\s*<=\s*(\d+)\s*)?\{", sd)
     if not m:
-        raise gt.GenError("encode.rs: the early return of set_custom_dictionary (quality 0/1, size <= K) not found")
-    out.append("Definition MULTI_DICT_MIN : N := %d." % int(m.group(1)))
+        raise gt.GenError("encode.rs: the early return of set_custom_dictionary (empty dictionary, quality 0/1) not found")
+    out.append("Definition MULTI_DICT_MIN : N := %d." % (int(m.group(1)) if m.group(1) else 0))
+    # the window is the sanitized one: max_dict_size is computed after ensure_initialized()
+    pos_init = sd.find("ensure_initialized()")
+    pos_max = sd.find(".wrapping_sub(")
+    out.append("Definition multi_dict_window_after_sanitize : bool := %s." % ("true" if 0 <= pos_init < pos_max else "false"))
     m = re.search(r"if\s+\w+\s*>\s*" + maxd + r"\s*\{(.*?)\n        \}\n", sd, re.S)
     if not m:
         raise gt.GenError("encode.rs: `if size > <max dictionary size> {` block not found")
